@@ -212,6 +212,48 @@ example : f12Result.lost = true ∧
     (balanceBlock (wEnv (fun _ => 0)) [0] (wSorter (wEnv (fun _ => 0))) f12Mounts []).lost = false := by
   refine ⟨by decide, by decide⟩
 
+/-! ## classes that no mount offers (finding F05a) -/
+
+/-- The under-replication clause for an ARBITRARY class with desired > 0, also one that is not in
+`bal.classes` because no mount offers it: the block then has replication 0 < desired there. -/
+def C05_any_class_Full : Prop :=
+  ∀ (env : Env) (classes : List Class) (sorter : Class → List Slot → List Slot) (mounts : List Mount)
+    (reps : List Replica),
+    BalanceOK env classes sorter mounts reps → DistinctIds mounts → DeviceConsistent mounts →
+    ∀ c, env.desired c ≠ 0 → physRepl c (balanceBlock env classes sorter mounts reps).heldBefore < env.desired c →
+    ∀ p ∈ (balanceBlock env classes sorter mounts reps).changes, ∀ t, p.2 ≠ .trash t
+
+/-- F05a: desired 2 in class 5, which no mount offers; both replicas (in class 0) are trashed. -/
+theorem C05_any_class_full_fails : ¬ C05_any_class_Full := by
+  intro h
+  have := h f05aEnv [0] (wSorter f05aEnv) f05aMounts f05aReps
+    (by unfold BalanceOK; simp only [RunOK]; decide) (by unfold DistinctIds; decide)
+    (by unfold DeviceConsistent; decide) 5 (by decide) (by decide)
+  have hm : (⟨mkMount 0 0 0 [0], some 900, false⟩, Change.trash 900) ∈ f05aResult.changes := by decide
+  exact this _ hm 900 rfl
+
+/-- the lost clause for a block referenced in ANY class -/
+def C05_lost_any_class_Full : Prop :=
+  ∀ (env : Env) (classes : List Class) (sorter : Class → List Slot → List Slot) (mounts : List Mount),
+    (∃ c, env.desired c ≠ 0) → (balanceBlock env classes sorter mounts []).lost = true
+
+theorem C05_lost_any_class_full_fails : ¬ C05_lost_any_class_Full := by
+  intro h
+  have := h f05aEnv [0] (wSorter f05aEnv) f05aMounts ⟨5, by decide⟩
+  revert this
+  decide
+
+/-- what holds: both clauses for every class of the loop, i.e. every class some mount offers and
+`default` — `C05_underreplicated_no_trash` and `C05_lost_reported` (restated) -/
+theorem C05_any_class_partial (hok : BalanceOK env classes sorter mounts reps)
+    (hid : DistinctIds mounts) (hcons : DeviceConsistent mounts)
+    (c : Class) (hc : c ∈ classes) (hd : env.desired c ≠ 0) :
+    (physRepl c (balanceBlock env classes sorter mounts reps).heldBefore < env.desired c →
+      ∀ p ∈ (balanceBlock env classes sorter mounts reps).changes, ∀ t, p.2 ≠ .trash t) ∧
+    (reps = [] → (balanceBlock env classes sorter mounts reps).lost = true) :=
+  ⟨C05_underreplicated_no_trash env classes sorter mounts reps hok hid hcons c hc hd,
+   fun hr => (C05_lost_reported env classes sorter mounts reps).2 ⟨hr, c, hc, hd⟩⟩
+
 /-! ## what is sent to keepstore -/
 
 /-- A trash request carries the bare hash (first 32 characters of the block id), the mtime that was
